@@ -54,7 +54,7 @@ func checkC19(r *harness.Run) harness.Coverage {
 		{"@", "valid"}, {"a", "valid"}, {"a.b", "valid"}, {"a[0]", "valid"}, {"[a, b]", "valid"}, {"{x: a, y: b}", "valid"}, {"length(@)", "valid-may-fail"},
 		{"a[*].b", "valid"}, {"`null`", "valid"}, {"`true`", "valid"}, {"`1.5`", "valid"}, {"'raw <&> string'", "valid"}, {"`[]`", "valid"}, {"`{}`", "valid"},
 		{"`{\"k\": [1, {\"n\": null}], \"s\": \"é\\n\"}`", "valid"}, {"keys(@)", "valid-may-fail"}, {"sort_by(@, &a)", "valid-may-fail"}, {"to_string(@)", "valid"}, {"a || b", "valid"}, {"*", "valid"},
-		{"avg(@)", "valid-may-fail"}, {"to_number(@)", "valid"}, {" a ", "valid"}, {"\"a\"", "valid"},
+		{"avg(@)", "valid-may-fail"}, {"sum(@)", "valid-may-fail"}, {"keys(@)[0]", "valid-may-fail"}, {"'100%'", "valid"}, {"join('%', keys(@))", "valid-may-fail"}, {"to_number(@)", "valid"}, {" a ", "valid"}, {"\"a\"", "valid"},
 		{"", "syntax"}, {"a.", "syntax"}, {"a[", "syntax"}, {"#", "syntax"}, {"a = b", "syntax"}, {"'unclosed", "syntax"}, {"`{bad`", "syntax"}, {"a b", "syntax"}, {"[0", "syntax"}, {"@(a)", "syntax"}, {"f(a b)", "syntax"},
 		{"a\u0080", "syntax"}, {"\xff", "syntax"}, {"a | ", "syntax"}, {"{a:", "syntax"},
 		{"nosuch(@)", "eval-error"}, {"abs('x')", "eval-error"}, {"length(@, @)", "eval-error"}, {"@[::0] || abs('x')", "eval-error"}, {"[a, nosuch(b)]", "eval-error"}, {"merge('a')", "eval-error"},
@@ -68,6 +68,8 @@ func checkC19(r *harness.Run) harness.Coverage {
 		{`[]`, "valid"}, {`{}`, "valid"}, {`[1, 2, 3]`, "valid"}, {` {"a": [ {"b": 1}, {"b": null} ] } ` + "\n", "valid"}, {`{"a": "é😀", "b": "<&>"}`, "valid"}, {`12345678901234567890`, "valid"}, {`["inf", "1"]`, "valid"},
 		{`{"b": "lit \\u003c here <&>", "a": "\u003c"}`, "valid"},
 		{`{"a": 1}` + strings.Repeat(" ", 32768-8), "valid"}, {strings.Repeat(" ", 65536-4) + `[1]` + "\n", "valid"}, {`[` + strings.Repeat("1,", 16383) + `1]`, "valid"},
+		{`9223372036854775808`, "valid"}, {`[4611686018427387904, 4611686018427387904]`, "valid"}, {`{"a": "100%", "b": "a%20b %s %d", "100%": 1}`, "valid"},
+		{"\xef\xbb\xbf" + `{"a": 1}`, "invalid"}, {`{"a": 1}` + "\xef\xbb\xbf", "invalid"},
 		{``, "invalid"}, {"  \n", "invalid"}, {`{"a": `, "invalid"}, {`{"a": 1} x`, "invalid"}, {`{"a": 1} {"a": 2}`, "invalid"}, {`{'a': 1}`, "invalid"}, {`[1, 2,]`, "invalid"}, {"\xff\xfe", "invalid"}, {`"` + "\xff" + `"`, "as-go-decodes"}, {`1e999`, "as-go-decodes"}, {`nul`, "invalid"},
 	}
 	if !r.Thorough() {
